@@ -555,6 +555,44 @@ pub fn run(a: &Args) -> Ctx {
                 ctx.count("cells.with_older_live_handle", 1);
             }
         }
+        // (i) a record file with a valid header whose length is not a multiple of 8 (a torn tail), next to a file with a
+        // foreign signature: the open is refused, and the torn file keeps its odd length and its bytes
+        if entries > 0 {
+            for torn in 0..2usize {
+                for foreign in 0..3usize {
+                    if foreign == torn {
+                        continue;
+                    }
+                    for delta in [5i64, 3, -3, 1] {
+                        job += 1;
+                        if job % a.nshards != a.shard {
+                            continue;
+                        }
+                        let names = ["key", "val", "htx"];
+                        let mut im = img.clone();
+                        {
+                            let b = match torn { 0 => &mut im.key, _ => &mut im.val };
+                            if delta > 0 {
+                                b.extend_from_slice(&crate::util::gen_bytes(delta as usize, 9, 1));
+                            } else {
+                                let n = b.len() - (-delta) as usize;
+                                b.truncate(n);
+                            }
+                        }
+                        {
+                            let b = match foreign { 0 => &mut im.key, 1 => &mut im.val, _ => &mut im.htx };
+                            b[0..8].copy_from_slice(b"siamdbX\0");
+                        }
+                        let cell = Cell {
+                            desc: format!("{} map whose .{} has a torn tail ({delta:+} bytes) and whose .{} carries a foreign format signature, opened as {}", type_name(ka), names[torn], names[foreign], type_name(ka)),
+                            signature: format!("torn_tail file={} delta={delta} foreign={} type={} outcome=accepted", names[torn], names[foreign], type_name(ka)),
+                        };
+                        check_cell(&dir, &im, ka, cell, &mut ctx);
+                        ctx.count("cells.torn_tails", 1);
+                    }
+                }
+            }
+        }
         // (c) single-byte mutations of the 16 signature bytes of each file, opened as A
         for f in 0..3usize {
             let fname = ["key", "val", "htx"][f];
